@@ -17,6 +17,9 @@ pub use snapshot::ServerContextSnapshot;
 pub use status_bar::ProgressTask;
 pub use status_bar::StatusBar;
 use std::{collections::HashMap, future::Future, sync::Arc};
+#[cfg(feature = "verif_hooks")]
+use crate::verif_sync::{Mutex, RwLock};
+#[cfg(not(feature = "verif_hooks"))]
 use tokio::sync::{Mutex, RwLock};
 use tokio_util::sync::CancellationToken;
 pub use workspace_manager::*;
